@@ -2224,6 +2224,34 @@ void chk_set_ops(unsigned universe)
       VF_COUNT("judged/set_union");
       VF_COUNT("judged/set_intersection");
       VF_COUNT("judged/set_difference");
+      // multisets ("must be an associative container"): multiplicities 0..2 per element, derived from the two masks; the
+      // obvious specification is the sorted merge of std::set_union / set_intersection / set_difference:
+      // max(m,n), min(m,n), max(m-n,0) occurrences
+      {
+        std::multiset<int> am, bm;
+        seq mu, mi, md;
+        for (unsigned e = 0; e < universe; ++e)
+        {
+          unsigned const m = ((ma >> e) & 1U) + (((ma >> ((e + 1) % universe)) & (mb >> e)) & 1U);
+          unsigned const n = ((mb >> e) & 1U) + (((mb >> ((e + 1) % universe)) & (ma >> e)) & 1U);
+          for (unsigned k = 0; k < m; ++k)
+            am.insert(static_cast<int>(e));
+          for (unsigned k = 0; k < n; ++k)
+            bm.insert(static_cast<int>(e));
+          for (unsigned k = 0; k < std::max(m, n); ++k)
+            mu.push_back(static_cast<int>(e));
+          for (unsigned k = 0; k < std::min(m, n); ++k)
+            mi.push_back(static_cast<int>(e));
+          for (unsigned k = n; k < m; ++k)
+            md.push_back(static_cast<int>(e));
+          if (m > 0 && n > 0 && m + n > 2)
+            VF_COUNT("set_ops/multiset-common-element-with-multiplicity");
+        }
+        expect(to_seq(fcppt::container::set_union(am, bm)), mu, "set_union", "multiset", "result");
+        expect(to_seq(fcppt::container::set_intersection(am, bm)), mi, "set_intersection", "multiset", "result");
+        expect(to_seq(fcppt::container::set_difference(am, bm)), md, "set_difference", "multiset", "result");
+        vf::add_evals(3);
+      }
     }
 }
 
@@ -2978,7 +3006,7 @@ void body()
         "join_strings/one-field", "join/an-empty-operand", "join/non-empty-operands", "join/string-lvalues-repeated", "at_optional/in-range",
         "at_optional/index-equals-size", "at_optional/beyond-size", "find_opt_mapped/found", "find_opt_mapped/absent",
         "get_or_insert/found", "get_or_insert/inserted", "get_or_insert/throwing-create", "set_difference/proper-non-empty",
-        "set_ops/incomparable-operands", "array::from_range/size-matches", "array::from_range/source-longer",
+        "set_ops/incomparable-operands", "set_ops/multiset-common-element-with-multiplicity", "array::from_range/size-matches", "array::from_range/source-longer",
         "array::from_range/source-shorter", "array::append/an-empty-operand", "tuple::concat/an-empty-operand"})
     vf::require_bucket(b);
   vf_slice_0();
